@@ -94,10 +94,9 @@ Definition ok (c : case) : bool :=
       && is_floor FOps tol9 (num_2_arg FOps n gw) (Z.of_nat num2)
       && all2 q_close (three_uniform_local_grid FOps n num1 num2 gw) out
   | Cfund grid subs =>
-      forallb (fun s => all2 q_eqb (sample_fundamental_on FOps f_round12 (fst s) grid) (snd s)) subs
+      forallb (fun s => all2 q_close (sample_fundamental_on FOps f_round12 (fst s) grid) (snd s)) subs
   | Clocal gw center grid out =>
-      all2 (match center with None => q_eqb | Some _ => q_close end)
-           (sample_local_on FOps f_round12 gw center grid) out
+      all2 q_close (sample_local_on FOps f_round12 gw center grid) out
   | Cs2 method p edges out =>
       all2 v_close
         (if (method =? 0)%Z then uv_mesh FOps (Z.to_nat (znth p 0)) (Z.to_nat (znth p 1))
@@ -208,7 +207,7 @@ def run(tier, seed):
     ck.cov["rule"] = ("correspondence: step counts for fixed + random dyadic resolutions (3 parity modes); relational "
                       "tan/arctan step counts; whole SO(3) grids (3 methods x several sizes, element by element, order "
                       "included); filter+unique of get_sample_fundamental on the implementation's grid for the 11 proper "
-                      "groups (+4 settings in thorough) x 3 methods, bit-exact; get_sample_local x 3 methods with and "
+                      "groups (+4 settings in thorough) x 3 methods (same length, same order, values to 2^-30: Rotation.__init__ re-normalises on every indexing, which is the identity over R and is not modelled); get_sample_local x 3 methods with and "
                       "without centre; 7 S2 meshes; reduced sample for all 38 point groups. oracle: 11 groups x 3 methods "
                       "x resolutions: Voronoi inside test, duplicates, covering radius of stratified probes (uniform, small "
                       "angle, near pi, Euler poles, u1 poles, cubochoric pyramid boundaries / faces); cubochoric sizes; "
